@@ -84,6 +84,7 @@ def cases(tier, seed, i, n):
     def allcases():
         for c in exhaustive4():
             yield c
+        yield gen.mark('every fragmentation of a 4-byte message x <=1 empty fragment x ping subsets x 3 length forms x text/binary x 2 segmentations')
         rnd = random.Random(seed * 1000003 + 11)
         count = 2500 if tier == 'quick' else 60000
         for idx in range(count):
